@@ -601,6 +601,8 @@ func (v Value) opNeq(b Value) Value { return Bool(!v.Equals(b)) }
 
 func (v Value) Equals(b Value) bool {
 	switch {
+	case b.t == TypeNil && v.t != TypeNil && v.t < nillableMin:
+		return false // a bool, number or string (held in an any) is never nil
 	case v.t == TypeBool:
 		return v.num == b.num
 	case (v.t & TypeFloat64) > 0:
